@@ -171,7 +171,9 @@ func (core *JApiCore) processEOF() *jerr.JApiError {
 	if je := core.processCurrentDirective(); je != nil {
 		return je
 	}
-	if core.HasUnclosedExplicitContext() {
+	// The end of an included file isn't the end of the text: contexts opened
+	// in the including files are closed there.
+	if core.scannersStack.Empty() && core.HasUnclosedExplicitContext() {
 		return core.japiError("not all explicit contexts are closed", core.scanner.CurrentIndex()-1)
 	}
 	return nil
